@@ -87,9 +87,17 @@ pub fn run_case(servers: &mut Servers, f: &[&str]) -> String {
             d2.fetch_add(1, Ordering::SeqCst);
         }));
     }
-    for &i in &order {
+    let noearly = field(f, "noearly=").is_some();
+    let mut early_eof = false;
+    for (pos, &i) in order.iter().enumerate() {
         if i >= n {
             continue;
+        }
+        if noearly && pos + 1 == order.len() {
+            // every other request has had its grace period; this one is still unanswered: the server
+            // must not have closed its sending side yet
+            std::thread::sleep(Duration::from_millis(60));
+            early_eof = eof_seen.load(Ordering::SeqCst);
         }
         let before = done.load(Ordering::SeqCst);
         if let Some(tx) = go[i].take() {
@@ -141,10 +149,11 @@ pub fn run_case(servers: &mut Servers, f: &[&str]) -> String {
     let w = canon_dates_anywhere(&wire.lock().unwrap());
     let texts = texts.lock().unwrap();
     format!(
-        "n={} {}wire={} end={} stray=0",
+        "n={} {}wire={} end={} stray=0{}",
         n,
         texts.iter().map(|t| format!("{} ", t.clone().unwrap_or("[NOT-FINISHED]".into()))).collect::<String>(),
         hex(&w),
-        end
+        end,
+        if noearly { format!(" early_eof={} closed_at_end={}", if early_eof { 1 } else { 0 }, if end == "closed" { 1 } else { 0 }) } else { String::new() }
     )
 }
